@@ -449,6 +449,8 @@ func runWirePart(c *Ctx, work string, sp *WireSpec) (Coverage, int, error) {
 			j["seq"] = cs.Seq
 			j["seqenc"] = cs.SeqEnc
 			j["scheds"] = cs.Scheds
+			// payloads beyond buffer sizes: the first two values of every schema, and a seed-rotating eighth of the rest
+			j["bigpayload"] = cs.Vi <= 2 || (cs.Sid+cs.Vi+c.Seed)%8 == 0
 		}
 		if sp.Op == "corrupt" {
 			// inputs on which the as-is model predicts a runaway are executed only as a sample
